@@ -6,6 +6,8 @@ worktree of /repo's HEAD and runs the given checks against it (check.py --src).
 Never touches /repo's working tree. Writes /tmp/mw/results/<name>.json."""
 import json, os, subprocess, sys, shutil, time, re
 
+V = os.path.dirname(os.path.dirname(os.path.abspath(__file__)))
+
 ENV = dict(os.environ, GOFLAGS="-mod=mod", GOPROXY="off", GOSUMDB="off", GOTOOLCHAIN="local")
 
 
@@ -74,7 +76,7 @@ def main():
                 res["existing_tests_tail"] = out[-800:]
         for c in checks:
             t0 = time.time()
-            rc, out = sh("python3 /verif/check.py %s --tier %s --src %s" % (c, tier, wt), timeout=3000)
+            rc, out = sh("python3 %s/check.py %s --tier %s --src %s" % (V, c, tier, wt), timeout=3000)
             viol = [l for l in out.splitlines() if l.startswith("VIOLATION") or l.startswith("violation:")]
             res["checks"][c] = {"exit": rc, "wall_s": round(time.time() - t0), "lines": viol[:6], "tail": out[-700:] if rc not in (0, 1) else out.splitlines()[-1] if out.splitlines() else ""}
     finally:
